@@ -37,6 +37,10 @@ def shards(tier, seed):
 	for i in range(n):
 		out.append(dict(name=f'rand-{i}', kind='rand', sub=i, n=250 if tier == 'quick' else 1500, maxsize=3000 if tier == 'quick' else 10000))
 	out.append(dict(name='asan-rand', kind='rand', sub=991, n=60 if tier == 'quick' else 400, maxsize=1000, sanitizer='asan'))
+	for s_ in out:
+		if s_.get('kind') in ['rand'] and not s_.get('sanitizer'):
+			s_['contracts'] = ['C02']
+	out.append(dict(name='suite-contracts', kind='suite-contracts', which=['C02'], tests=['tests/test_metric.py']))
 	return out
 
 
